@@ -47,7 +47,9 @@ func NewEnv(n int) *Env { return &Env{Cb: make([]int64, n+1)} }
 
 var ErrCb = errors.New("verif: callback error (cause 11)")
 var ErrThrowIfEmpty = errors.New("verif: throw-if-empty (cause 12)")
-var ErrSrc = []error{errors.New("verif: source error 0"), errors.New("verif: source error 1"), errors.New("verif: source error 2"), errors.New("verif: source error 3"),
+
+// ErrSrc[0] is the NIL error: Error(nil) is a legal terminal (Throw documents it) and must travel like any other error.
+var ErrSrc = []error{nil, errors.New("verif: source error 1"), errors.New("verif: source error 2"), errors.New("verif: source error 3"),
 	errors.New("verif: source error 4"), errors.New("verif: source error 5"), errors.New("verif: source error 6")}
 var ErrFault = errors.New("verif: injected fault (cause 13)")
 
@@ -55,7 +57,7 @@ var ErrFault = errors.New("verif: injected fault (cause 13)")
 func CauseOf(err error) int {
 	switch {
 	case err == nil:
-		return -2
+		return 0 // the nil error is cause 0 of the specification
 	case errors.Is(err, ErrFault):
 		return 13
 	case errors.Is(err, ErrCb):
@@ -74,7 +76,7 @@ func CauseOf(err error) int {
 		return 105
 	}
 	for i, e := range ErrSrc {
-		if errors.Is(err, e) {
+		if e != nil && errors.Is(err, e) {
 			return i
 		}
 	}
